@@ -277,20 +277,29 @@ impl Pattern {
         let p_question_mark =
             |s| map(tag("?"), |_| "[^".to_string() + escaped_sep.as_str() + "]")(s);
 
+        // Inside a regex character class `[`, `&&` and `~~` have a meaning of their own
+        // (nested class, intersection, symmetric difference); in a glob they are just members.
+        fn set_members(characters: Vec<char>) -> String {
+            let mut members = String::new();
+            for c in characters {
+                if matches!(c, '[' | '&' | '~') {
+                    members.push('\\');
+                }
+                members.push(c);
+            }
+            members
+        }
+
         // [ characters ] -> [ characters ]
         let p_neg_character_set = map(
             tuple((tag("[!"), many0(none_of("]")), tag("]"))),
-            |(_, characters, _)| {
-                "[^".to_string() + &characters.into_iter().collect::<String>() + "]"
-            },
+            |(_, characters, _)| "[^".to_string() + &set_members(characters) + "]",
         );
 
         // [ characters ] -> [ characters ]
         let p_character_set = map(
             tuple((tag("["), many0(none_of("]")), tag("]"))),
-            |(_, characters, _)| {
-                "[".to_string() + &characters.into_iter().collect::<String>() + "]"
-            },
+            |(_, characters, _)| "[".to_string() + &set_members(characters) + "]",
         );
 
         let p_separator = map(tag("/"), |_| escaped_sep.clone());
